@@ -19,7 +19,106 @@ def simplify_fmt(I, ctx, f):
     return FmtStr(parts)
 
 
+def _lit(I, ctx, x):
+    """a concrete pattern argument: &str literal or char"""
+    x = I.deref(ctx, x)
+    if isinstance(x, Opaque) and x.tag == "char": return x.data
+    return x if isinstance(x, str) else None
+
+
+def _chars(s):
+    from .std import make_iter
+    return make_iter([Opaque("char", c) for c in s])
+
+
+def concrete_str_method(I, ctx, meth, r, s, args):
+    """methods on a fully concrete string (python semantics coincide with Rust's for these on valid UTF-8)"""
+    from .std import make_iter, _store
+    a1 = _lit(I, ctx, args[1]) if len(args) > 1 else None
+    if meth in ("push_str", "push", "insert_str", "insert", "pop", "clear", "truncate", "remove"):
+        if not isinstance(r, Ref): raise Unsupported(f"String::{meth} without a place")
+        if meth in ("push_str", "push"):
+            x = I.deref(ctx, args[1])
+            if isinstance(x, Opaque) and x.tag == "char": x = x.data
+            if isinstance(x, str): _store(I, ctx, r, s + x); return ()
+            from .std import FmtStr
+            _store(I, ctx, r, FmtStr([s, x]) if s else x); return ()
+        if meth == "pop":
+            if not s: return NONE
+            _store(I, ctx, r, s[:-1]); return Some(Opaque("char", s[-1]))
+        if meth == "clear": _store(I, ctx, r, ""); return ()
+        if meth == "truncate":
+            n = args[1]
+            if not isinstance(n, int): n = ctx.concretize_int(n, 0, len(s.encode()) + 1, "truncate")
+            b = s.encode()
+            if n < len(b): _store(I, ctx, r, b[:n].decode())
+            return ()
+        if meth == "remove":
+            n = args[1]
+            if not isinstance(n, int): n = ctx.concretize_int(n, 0, len(s) + 1, "remove")
+            if n >= len(s.encode()): raise Panic("cannot remove a char from the end of a string")
+            _store(I, ctx, r, s[:n] + s[n + 1:]); return Some(Opaque("char", s[n])) if False else Opaque("char", s[n])
+        if meth in ("insert_str", "insert"):
+            n = args[1]
+            if not isinstance(n, int): n = ctx.concretize_int(n, 0, len(s) + 1, "insert")
+            x = _lit(I, ctx, args[2])
+            if x is None or n > len(s): raise Unsupported("String::insert")
+            _store(I, ctx, r, s[:n] + x + s[n:]); return ()
+    if meth == "strip_prefix" and a1 is not None: return Some(s[len(a1):]) if s.startswith(a1) else NONE
+    if meth == "strip_suffix" and a1 is not None: return Some(s[:len(s) - len(a1)]) if s.endswith(a1) else NONE
+    if meth in ("find", "rfind") and a1 is not None:
+        k = s.find(a1) if meth == "find" else s.rfind(a1)
+        return NONE if k < 0 else Some(len(s[:k].encode()))
+    if meth == "split" and a1 is not None: return make_iter(s.split(a1))
+    if meth == "rsplit" and a1 is not None: return make_iter(list(reversed(s.split(a1))))
+    if meth == "splitn" and len(args) > 2:
+        n, sep = I.deref(ctx, args[1]), _lit(I, ctx, args[2])
+        if isinstance(n, int) and sep is not None: return make_iter(s.split(sep, n - 1) if n > 0 else [])
+    if meth == "split_once" and a1 is not None:
+        k = s.find(a1)
+        return NONE if k < 0 else Some((s[:k], s[k + len(a1):]))
+    if meth == "rsplit_once" and a1 is not None:
+        k = s.rfind(a1)
+        return NONE if k < 0 else Some((s[:k], s[k + len(a1):]))
+    if meth == "split_whitespace": return make_iter(s.split())
+    if meth == "lines": return make_iter(s.splitlines())
+    if meth == "trim": return s.strip()
+    if meth == "trim_start": return s.lstrip()
+    if meth == "trim_end": return s.rstrip()
+    if meth == "trim_start_matches" and a1 is not None:
+        while a1 and s.startswith(a1): s = s[len(a1):]
+        return s
+    if meth == "trim_end_matches" and a1 is not None:
+        while a1 and s.endswith(a1): s = s[:len(s) - len(a1)]
+        return s
+    if meth == "repeat":
+        n = args[1]
+        if not isinstance(n, int): n = ctx.concretize_int(n, 0, 64, "repeat", beyond="unsupported")
+        return s * n
+    if meth == "replace" and a1 is not None:
+        a2 = _lit(I, ctx, args[2])
+        if a2 is not None: return s.replace(a1, a2)
+    if meth == "chars": return _chars(s)
+    if meth == "char_indices":
+        out, k = [], 0
+        for c in s:
+            out.append((k, Opaque("char", c))); k += len(c.encode())
+        return make_iter(out)
+    if meth == "bytes": return make_iter(list(s.encode()))
+    if meth in ("to_ascii_lowercase", "to_lowercase"): return s.lower()
+    if meth in ("to_ascii_uppercase", "to_uppercase"): return s.upper()
+    if meth == "is_ascii": return s.isascii()
+    if meth == "eq_ignore_ascii_case" and a1 is not None: return s.lower() == a1.lower()
+    if meth == "is_char_boundary" and isinstance(args[1], int):
+        b = s.encode()
+        return args[1] == len(b) or (args[1] < len(b) and (b[args[1]] & 0xC0) != 0x80)
+    return NotImplemented
+
+
 def str_method(I, ctx, meth, s, args, callee, crate):
+    if isinstance(s, str):
+        r = concrete_str_method(I, ctx, meth, args[0], s, args)
+        if r is not NotImplemented: return r
     if isinstance(s, str):
         if meth == "starts_with":
             p = I.deref(ctx, args[1])
@@ -35,6 +134,13 @@ def str_method(I, ctx, meth, s, args, callee, crate):
     if meth == "starts_with":
         p = I.deref(ctx, args[1])
         if isinstance(p, str): return ctx.str_starts_with(s, p)
+    if meth == "strip_prefix":
+        # same two primitives the contracts use by hand (`starts_with` then `get(n..)`)
+        p = I.deref(ctx, args[1])
+        if isinstance(p, str):
+            if not ctx.str_starts_with(s, p): return NONE
+            r = ctx.str_after_prefix(s, len(p.encode()))
+            return NONE if r is None else Some(r)
     if meth == "get":
         rng = I.deref(ctx, args[1])
         if isinstance(rng, Struct) and rng.ty == "RangeFrom" and isinstance(rng.fields[0], int):
